@@ -204,6 +204,33 @@ pub fn case(rng: &mut Rng) -> String {
                     }
                 }
             }
+            // entries far below f64::EPSILON are not zeros: such rows / columns must stay
+            if rng.chance(1, 4) {
+                let tiny = *rng.pick(&[(2.0f64).powi(-60), -(2.0f64).powi(-70), (2.0f64).powi(-1000)]);
+                let i = rng.below(m + 1);
+                let j = rng.below(n);
+                match rng.below(3) {
+                    0 => {
+                        for k in 0..n {
+                            f.mat[[i, k]] = 0.0;
+                        }
+                        f.mat[[i, j]] = tiny;
+                        f.bias[i] = 0.0;
+                    }
+                    1 => {
+                        for k in 0..n {
+                            f.mat[[i, k]] = 0.0;
+                        }
+                        f.bias[i] = tiny;
+                    }
+                    _ => {
+                        for k in 0..m + 1 {
+                            f.mat[[k, j]] = 0.0;
+                        }
+                        f.mat[[i, j]] = tiny;
+                    }
+                }
+            }
             if op == 15 {
                 out.push_str("remove_zero_rows ");
                 enc::aff(&mut out, &f);
